@@ -1,7 +1,11 @@
 package web
 
 import (
+	"context"
 	"errors"
+	"github.com/indexsupply/shovel/shovel"
+	"github.com/jackc/pgx/v5/pgconn"
+	"github.com/jackc/pgx/v5/pgxpool"
 	"html/template"
 	"net"
 	"net/http"
@@ -16,15 +20,15 @@ import (
 
 // environment of the authentication code (cut points, see gosym/load.go)
 var (
-	zzCookie      int // 0 none, 1 garbage, 2 minted by this process, 3 minted under another key
-	zzSetCalled   int
-	zzMalformed   bool
-	zzLoopback    bool
-	zzFormPass    string
-	zzParseFails  bool
-	zzStatus      int
-	zzLocation    string
-	zzNextRan     int
+	zzCookie     int // 0 none, 1 garbage, 2 minted by this process, 3 minted under another key
+	zzSetCalled  int
+	zzMalformed  bool
+	zzLoopback   bool
+	zzFormPass   string
+	zzParseFails bool
+	zzStatus     int
+	zzLocation   string
+	zzNextRan    int
 )
 
 func zzSessionGet(r *http.Request, v any, c *session.Config) error {
@@ -52,15 +56,71 @@ func zzParseForm(r *http.Request) error {
 	return nil
 }
 
+var zzForm map[string]string
+
 func zzFormValue(r *http.Request, key string) string {
 	if key == "password" {
 		return zzFormPass
 	}
-	return ""
+	return zzForm[key]
+}
+
+// zzWebExec: natively the handlers' h.pgp.Exec is rewritten to this (the pool
+// is nil in the harness); in the engine (*pgxpool.Pool).Exec is redirected to
+// the shovel package's model, which hands the statement to the same recorder.
+func zzWebExec(p *pgxpool.Pool, ctx context.Context, sql string, args ...any) (pgconn.CommandTag, error) {
+	if shovel.ZZPoolExecHook != nil {
+		return pgconn.CommandTag{}, shovel.ZZPoolExecHook(sql, args)
+	}
+	return pgconn.CommandTag{}, errors.New("no recorder")
+}
+
+// ZZ_C15_SaveSource: the dashboard's /save-source handler with a source name
+// ending in an arbitrary byte. A name that fails the identifier check must not
+// be stored: stored source names are later spliced into SQL text
+// (application_name, the notification channel) without another check.
+func ZZ_C15_SaveSource() {
+	c := zzvrf.U8("hostile-byte")
+	name := "src" + string([]byte{c})
+	zzForm = map[string]string{"chainID": "5", "name": name, "ethURL": "http://node"}
+	stored := false
+	var storedName string
+	shovel.ZZPoolExecHook = func(sql string, args []any) error {
+		stored = true
+		if len(args) >= 2 {
+			storedName, _ = args[1].(string)
+		}
+		return errors.New("recorded") // stop the handler before it restarts the (absent) manager
+	}
+	defer func() { shovel.ZZPoolExecHook, zzForm = nil, nil }()
+	zzStatus, zzLocation = 0, ""
+	h := &Handler{conf: &config.Root{}}
+	r := &http.Request{Method: "POST", RemoteAddr: "x", Form: map[string][]string{"chainID": {"5"}, "name": {name}, "ethURL": {"http://node"}}}
+	func() {
+		defer func() { recover() }()
+		h.SaveSource(&zzRW{}, r)
+	}()
+	safe := zzvrf.Or(zzvrf.Or(zzvrf.And(c >= 'a', c <= 'z'), zzvrf.And(c >= 'A', c <= 'Z')), zzvrf.Or(zzvrf.And(c >= '0', c <= '9'), zzvrf.Or(c == '_', c == '-')))
+	zzvrf.Assert(zzvrf.Implies(stored, safe), "only-checked-source-names-are-stored")
+	if stored {
+		zzvrf.Assert(storedName == name, "stored-name-is-the-submitted-one")
+		zzvrf.Reach("stored")
+	} else {
+		zzvrf.Reach("rejected")
+	}
+	zzvrf.Reach("end")
 }
 
 // isLoopback's two library calls
+// zzRealNet: the address harness (ZZ_C19_Addr) uses real addresses: the cuts
+// delegate to the real net functions (natively; in the engine the flag
+// "real-net" evaluates them on the concrete strings instead of redirecting).
+var zzRealNet bool
+
 func zzSplitHostPort(hostport string) (string, string, error) {
+	if zzRealNet {
+		return net.SplitHostPort(hostport)
+	}
 	if zzMalformed {
 		return "", "", errors.New("missing port in address")
 	}
@@ -69,7 +129,12 @@ func zzSplitHostPort(hostport string) (string, string, error) {
 
 type zzIP struct{}
 
-func zzIsLoopbackHost(host string) bool { return zzLoopback }
+func zzIsLoopbackHost(host string) bool {
+	if zzRealNet {
+		return net.ParseIP(host).IsLoopback()
+	}
+	return zzLoopback
+}
 
 func zzTemplate(h *Handler, local bool, name string) (*template.Template, error) {
 	return nil, errors.New("templates are not part of the check")
@@ -113,8 +178,9 @@ func ZZ_C19_Authn(cookie int) {
 }
 
 // ZZ_C19_Login: a session is issued only for POST with the exact password.
-//   plen: length of the configured password (0 = generated at start-up)
-//   slen: length of the supplied password
+//
+//	plen: length of the configured password (0 = generated at start-up)
+//	slen: length of the supplied password
 func ZZ_C19_Login(plen, slen int) {
 	conf := &config.Root{}
 	conf.Dashboard.RootPassword = wos.EnvString(zzvrf.Str("configured-password", plen))
@@ -147,8 +213,8 @@ func ZZ_C19_Login(plen, slen int) {
 	zzvrf.Reach("end")
 }
 
-func zzParseIP(s string) net.IP        { return nil }
-func zzIPIsLoopback(ip net.IP) bool    { return zzLoopback }
+func zzParseIP(s string) net.IP                   { return nil }
+func zzIPIsLoopback(ip net.IP) bool               { return zzLoopback }
 func zzAgeIdentity() (*age.X25519Identity, error) { return nil, nil }
 
 // lower-level cuts, consistent with zzSessionGet: the request carries a
@@ -167,4 +233,35 @@ func zzSessionDecode(value string, v any, keys ...any) error {
 		return nil
 	}
 	return errors.New("cookie does not decrypt under this process's key")
+}
+
+var zzAddrs = []struct {
+	addr string
+	loop bool
+}{
+	{"127.0.0.1:4000", true}, {"127.9.8.7:1", true}, {"[::1]:4000", true},
+	{"10.0.0.7:4000", false}, {"192.168.1.5:4000", false}, {"8.8.8.8:53", false},
+	{"169.254.10.20:4000", false}, {"[fe80::1]:4000", false}, {"[fe80::1c2b:3aff:fe4d:5e6f%eth0]:4000", false}, {"[fe80::1%lo0]:4000", false},
+	{"0.0.0.0:1", false}, {"[::]:1", false}, {"[::ffff:127.0.0.1]:1", true}, {"localhost:4000", false}, {"127.0.0.1", false}, {"", false},
+}
+
+// ZZ_C19_Addr: the wrapper with REAL remote addresses (no loopback oracle):
+// without a session the handler runs iff authentication is disabled, or
+// loopback authentication is not enforced and the peer address is a loopback
+// address (127.0.0.0/8, ::1, also IPv4-mapped) - not a link-local, private,
+// unspecified, named or malformed one.
+func ZZ_C19_Addr(i int) {
+	zzRealNet = true
+	defer func() { zzRealNet = false }()
+	conf := &config.Root{}
+	conf.Dashboard.DisableAuthn = zzvrf.Bool("disable_authn")
+	conf.Dashboard.EnableLoopbackAuthn = zzvrf.Bool("enable_loopback_authn")
+	zzCookie, zzSetCalled, zzStatus, zzLocation, zzNextRan = 0, 0, 0, "", 0
+	h := &Handler{conf: conf}
+	next := func(w http.ResponseWriter, r *http.Request) { zzNextRan++ }
+	r := &http.Request{Method: "POST", RemoteAddr: zzAddrs[i].addr}
+	h.Authn(next).ServeHTTP(&zzRW{}, r)
+	allowed := zzvrf.Or(conf.Dashboard.DisableAuthn, zzvrf.And(!conf.Dashboard.EnableLoopbackAuthn, zzAddrs[i].loop))
+	zzvrf.Assert((zzNextRan == 1) == allowed, "served-iff-disabled-or-real-loopback-peer")
+	zzvrf.Reach("end")
 }
